@@ -5,7 +5,7 @@ use super::Gen;
 use crate::rng::Rng;
 use crate::term::*;
 
-pub const KINDS: [&str; 6] = ["proc", "while", "for", "foreach", "catch", "if"];
+pub const KINDS: [&str; 7] = ["proc", "while", "for", "foreach", "catch", "if", "expr"];
 pub const CODES: [&str; 12] = ["ok", "error", "return", "break", "continue", "5", "7", "0", "1", "2", "3", "4"];
 
 fn raise_text(r: &Term) -> String {
@@ -24,6 +24,8 @@ fn wrap(kind: &str, k: usize, body: &str) -> String {
         "while" => format!("set w{k} 0; while {{$w{k} < 2}} {{incr w{k}; rec iter {k} $w{k}; if {{$w{k} == 1}} {{{b}}}; rec after {k} $w{k}}}", k = k, b = body),
         "for" => format!("for {{set f{k} 1}} {{$f{k} <= 2}} {{incr f{k}}} {{rec iter {k} $f{k}; if {{$f{k} == 1}} {{{b}}}; rec after {k} $f{k}}}", k = k, b = body),
         "foreach" => format!("foreach e{k} {{1 2}} {{rec iter {k} $e{k}; if {{$e{k} == 1}} {{{b}}}; rec after {k} $e{k}}}", k = k, b = body),
+        // the enclosed part runs as a command substitution inside an expression
+        "expr" => format!("set q{k} [expr {{[{b}; rec after {k}] + 0}}]", k = k, b = body),
         "catch" => format!("set c{k} [catch {{{b}; rec after {k}}} r{k} o{k}]; rec caught {k} $c{k} $r{k} [dict get $o{k} -code] [dict get $o{k} -level]", k = k, b = body),
         _ => format!("if 1 {{{b}; rec after {k}}}", k = k, b = body),
     }
@@ -107,7 +109,7 @@ pub fn gen(tier: &str, seed: u64) -> Gen {
             }
         }
     }
-    (cases, vec![(format!("{} raising commands (12 codes - the five standard ones by name and by number, 5 and 7 - x levels 0-3, plain return/break/continue/error) x every stack of frames of depth<={} over proc/while/for/foreach/catch/if, a quarter of them after caught failures in the same evaluation, a third of the numeric codes computed by catch / expr instead of written as literals", raises.len(), maxdepth), n, thorough)])
+    (cases, vec![(format!("{} raising commands (12 codes - the five standard ones by name and by number, 5 and 7 - x levels 0-3, plain return/break/continue/error) x every stack of frames of depth<={} over proc/while/for/foreach/catch/if/expr (a command substitution inside an expression), a quarter of them after caught failures in the same evaluation, a third of the numeric codes computed by catch / expr instead of written as literals", raises.len(), maxdepth), n, thorough)])
 }
 
 pub fn run(case: &Term) -> Term {
